@@ -158,8 +158,31 @@ def runTrace (vf : String) (vq : List Fr) (vp : String) (qs : List (Query ComRef
     let qes := if t.qEvalSets.isEmpty then "-" else "|".intercalate (t.qEvalSets.map hexs)
     s!"px1={hexs t.powersX1} qes={qes} r={hexs t.rEvals} fe={toHex t.fEval.val} v={toHex t.v.val}"
 
+/-- `otrace <k> P=<polys> Q=<queries> X=<challenges> Z=<test point>`: the intermediate polynomials
+of `multi_open` (`q_polys` per set, `f_poly`, `final_poly`, `v`, `pi_poly`; compared with the add-only
+trace hook inside the real `multi_open`), each as `length:lowest:highest coefficient:value at Z`. -/
+def runOpenTrace (k : Nat) (polys : List (List Fr)) (qs : List (Query Nat Fr Fr)) (xs : List Fr) (z : Fr) : String :=
+  let x (i : Nat) := xs.getD i 0
+  match multiOpen (2 ^ k) polys qs (x 0) (x 1) (x 2) (x 3) with
+  | .error .dup => "err dup"
+  | .error .panic => "panic"
+  | .ok out =>
+    let digest (p : List Fr) : String :=
+      match p with
+      | [] => "0:-:-:0x0"
+      | c0 :: _ => s!"{p.length}:{toHex c0.val}:{toHex (p.getLastD 0).val}:{toHex (evalPoly p z).val}"
+    let qs := if out.qPolys.isEmpty then "" else "|".intercalate (out.qPolys.map digest)
+    s!"q={qs} f={digest out.fPoly} fin={digest out.finalPoly} v={toHex out.v.val} pi={digest out.piPoly}"
+
+/-- A trailing `pool=<t>` word names the rayon pool the implementation ran in; the model's answer
+does not depend on it (thread-count independence is part of what is compared). -/
+def dropPoolTag (ws : List String) : List String :=
+  match ws.getLast? with
+  | some w => if w.startsWith "pool=" ∧ ((w.drop 5).toString.toNat?).isSome then ws.dropLast else ws
+  | none => ws
+
 def step (st : St) (line : String) : St × String :=
-  match words line with
+  match dropPoolTag (words line) with
   | ["gen"] => (st, mulGenStr 1)
   | ["sets", qs] =>
     match parseAbstractQueries? qs with
@@ -172,6 +195,20 @@ def step (st : St) (line : String) : St × String :=
       | some polys, some xs =>
         match parseProverQueries? polys q with
         | some qs => runProve k s polys qs xs
+        | none => (st, "bad-op")
+      | _, _ => (st, "bad-op")
+    | _, _, _, _, _ => (st, "bad-op")
+  | ["evalt", t, p, x] =>
+    match t.toNat?, parseFrList? p, parseNat? x with
+    | some t, some p, some x => (st, toHex (evalPolyThreads t p (fr x)).val)
+    | _, _, _ => (st, "bad-op")
+  | ["otrace", k, p, q, x, z] =>
+    match k.toNat?, stripKey "P=" p, stripKey "Q=" q, stripKey "X=" x, (stripKey "Z=" z).bind parseNat? with
+    | some k, some p, some q, some x, some z =>
+      match (p.splitOn ";").mapM parseFrList?, parseFrList? x with
+      | some polys, some xs =>
+        match parseProverQueries? polys q with
+        | some qs => (st, runOpenTrace k polys qs xs (fr z))
         | none => (st, "bad-op")
       | _, _ => (st, "bad-op")
     | _, _, _, _, _ => (st, "bad-op")
